@@ -53,6 +53,8 @@ func (sc *scenario) run() {
 	}
 	defer w.close()
 	var pend []pendingReq
+	var kept [][2]string // request objects created and not yet connected: key, server
+	nextKey := 1
 	r := sc.rng
 	alive := true
 	loggedIn := false
@@ -97,10 +99,21 @@ func (sc *scenario) run() {
 				}
 			}
 			switch {
-			case !loggedIn && step == 1 && r.Chance(1, 3):
+			case !loggedIn && step == 1 && r.Chance(1, 4):
 				op = "script " + hx.Pick(r, names) + " " + hx.Pick(r, []string{"kl", "r", "el", "kt", "a.kl"})
+			case !loggedIn && step == 1 && r.Chance(1, 3):
+				// a request object created while the player has no server yet, connected later
+				op = fmt.Sprintf("script %s s:a|loginstall|create %d %s|release", sc.try[0], nextKey, hx.Pick(r, others(sc.try[0])))
+				nextKey++
 			case !loggedIn:
 				op = "login"
+			case len(pend) == 0 && len(kept) > 0 && r.Chance(1, 3):
+				k := kept[0]
+				kept = kept[1:]
+				op = "conn " + k[0] + " " + k[1]
+			case len(kept) < 2 && r.Chance(1, 12):
+				op = fmt.Sprintf("create %d %s", nextKey, hx.Pick(r, names))
+				nextKey++
 			case len(pend) > 0:
 				switch r.Intn(6) {
 				case 0, 1:
@@ -187,6 +200,57 @@ func (sc *scenario) run() {
 					loggedIn = true
 					return "ok " + w.observe(true)
 				})
+			case "loginstall":
+				// start the initial join; the first backend stalls in login: the player exists but has no server yet
+				impl = hx.Guard(30*time.Second, func() string {
+					for len(w.newConn) > 0 {
+						<-w.newConn
+					}
+					if err := w.loginBegin(); err != nil {
+						alive = false
+						return "fail " + w.observe(true)
+					}
+					ch := make(chan string, 1)
+					go func() {
+						if err := w.loginWait(); err != nil {
+							ch <- "fail"
+						} else {
+							ch <- "ok"
+						}
+					}()
+					for {
+						select {
+						case res := <-ch:
+							loggedIn = res == "ok"
+							alive = loggedIn
+							return "returned:" + res + " " + w.observe(true)
+						case c := <-w.newConn:
+							select {
+							case <-c.stalled:
+								if !w.findPlayer() {
+									alive = false
+									return "noplayer " + w.observe(false)
+								}
+								loggedIn = true
+								pend = append(pend, pendingReq{ch})
+								return "stalled " + w.observe(false)
+							case res := <-ch:
+								loggedIn = res == "ok"
+								alive = loggedIn
+								return "returned:" + res + " " + w.observe(true)
+							}
+						}
+					}
+				})
+			case "create":
+				if w.createRequest(f[1], f[2]) {
+					impl = "ok"
+				} else {
+					impl = "noplayer"
+				}
+				kept = append(kept, [2]string{f[1], f[2]})
+			case "conn":
+				impl = hx.Guard(30*time.Second, func() string { return w.connectKept(f[1]) + " " + w.observe(false) })
 			case "req":
 				impl = hx.Guard(30*time.Second, func() string { return w.connect(f[1]) + " " + w.observe(false) })
 			case "start":
@@ -262,7 +326,7 @@ func (sc *scenario) run() {
 			}
 			if impl == "hang" || impl == "panic" {
 				alive = false
-			} else if f[0] != "script" {
+			} else if f[0] != "script" && f[0] != "create" {
 				impl += fmt.Sprintf(" mp=%d", w.maxSeen())
 			}
 			if strings.Contains(impl, "act=0") {
@@ -303,6 +367,13 @@ func main() {
 		for _, p := range []proto.Protocol{340, 767} {
 			scs = append(scs, &scenario{proto: p, try: all, fixed: f, rng: hx.NewRng(1)})
 		}
+	}
+	// a STALE request object: created while the player had no server (initial join stalled), connected after the
+	// player joined s1 — the switch must still close s1 (the request's own snapshot says "no previous server")
+	for _, p := range []proto.Protocol{47, 340, 765, 767} {
+		scs = append(scs, &scenario{proto: p, try: all, rng: hx.NewRng(1),
+			fixed: []string{"script s1 s:a", "loginstall", "create 1 s2", "create 2 s3", "release", "conn 1 s2", "req s1",
+				"create 3 s1", "conn 2 s3", "conn 3 s1", "req s2"}})
 	}
 	// modern-only faults in the configuration phase
 	for _, p := range modern {
